@@ -31,6 +31,9 @@ def run(ctx: Ctx):
     rendering_spaces(ctx)
     explicit_order(ctx)
     position_truthiness(ctx)
+    from .common import order_index_sign_tests
+
+    order_index_sign_tests(ctx, "order-index-sign")
 
 
 def _const(e: ast.expr) -> Any:
